@@ -1,2 +1,9 @@
 import P2P.Props.C02
-#print axioms P2P.Props.C02.placeholder
+#print axioms P2P.Props.C02.cyclic_none
+#print axioms P2P.Props.C02.assign_preserves
+#print axioms P2P.Props.C02.peptide_chain_termini
+#print axioms P2P.Props.C02.single_residue_termini
+#print axioms P2P.Props.C02.cterm_through_trailing
+#print axioms P2P.Props.C02.set_termini_chainwise
+#print axioms P2P.Props.C02.neutral_nterm_shift
+#print axioms P2P.Props.C02.formal_range
